@@ -177,3 +177,18 @@ def model_batch(b, cases):
     scripts = model_lines(b, ["FULLBATCH" + r[5:] for r in reqs])
     for c, sc in zip(cases, scripts):
         c.meta["model_batch"] = sc
+
+
+def batch_disagreements(b, cases):
+    """cases that went through stage "w": those whose Batch script differs from the Lean rendering (Model.ConvBatch). There is no cmd.exe
+    here; for properties that are not about one target this ties the Batch side at least to the model, so that a Batch-only change of the
+    converter is reported (without a failing input where the cmd model cannot run the script)."""
+    have = [c for c in cases if "BATCH" in c.out]
+    model_batch(b, have)
+    out = []
+    for c in have:
+        cls, pl = c.out["BATCH"]
+        impl = "OK " + pl if cls == "OK" else cls
+        if c.meta.get("model_batch") != impl:
+            out.append(c)
+    return out
